@@ -37,7 +37,7 @@ QUICK = {"ADWIN": 120, "ADWINAccuracy": 80, "CUSUM": 120, "PageHinkley": 120, "D
 
 def scenarios(tier):
     k = 1 if tier == "quick" else 10
-    out = [(n, v * k) for n, v in QUICK.items()]
+    out = [(n, 2 * v * k) for n, v in QUICK.items()]
     try:
         from sim.props import c19  # noqa: F401
     except ImportError:
